@@ -317,7 +317,7 @@ def _path_conditions(node, root) -> set:
                 for s in blk:
                     if s is child:
                         break
-                    if isinstance(s, ast.If) and not s.orelse and s.body and isinstance(s.body[-1], (ast.Return, ast.Raise)):
+                    if isinstance(s, ast.If) and not s.orelse and s.body and isinstance(s.body[-1], (ast.Return, ast.Raise, ast.Continue, ast.Break)):
                         add(s.test, False)
         if p is root:
             break
@@ -472,3 +472,409 @@ def rule_truncated_quotient(ctx, modnames: Sequence[str]):
                               msg=f"`{norm(b)[:80]}` multiplies an already truncated quotient: e.g. int(ppq*4/beat_type)*beats is 0 for 6/8 at ppq 1 "
                                   f"where int(ppq*4*beats/beat_type) is 3 — the measure rest gets the wrong length")
     ctx.ok(rule, f"{n} functions scanned")
+
+
+# =====================================================================================
+# rules added after round 2 of the seeded changes
+# =====================================================================================
+
+def rule_tie_key(ctx):
+    rule = "TIE-key"
+    ctx.rule(rule, "MusicXML import pairs tie start/stop by pitch only (the exporter writes ties regardless of voice and may move a "
+                   "chord member to another voice): the pairing key is ('tie', <pitch>) with no further component")
+    f = ctx.prog.func("partitura.io.importmusicxml:_handle_note", rule)
+    keys = [n for n in own_nodes(f.node) if isinstance(n, ast.Assign) and isinstance(n.value, ast.Tuple) and n.value.elts
+            and isinstance(n.value.elts[0], ast.Constant) and n.value.elts[0].value == "tie"]
+    ctx.require(len(keys) == 1, rule, f.qname, "tie pairing key not found")
+    t = keys[0].value
+    ok = len(t.elts) == 2 and "midi_pitch" in norm(t.elts[1])
+    ctx.check(ok, rule, f"tie key {norm(t)[:60]}", func=f, node=keys[0], construct="tie-key-components",
+              msg=f"ties are paired under `{norm(t)[:80]}`; MusicXML pairs tie start and stop by pitch, and the exporter may write the two notes in "
+                  f"different voices: any extra component (voice, staff) silently drops such ties on re-import")
+
+
+def rule_first_track_tempo(ctx):
+    rule = "TEMPO-first"
+    ctx.rule(rule, "save_performance_midi announces the tempo used for every tick computation on the *first emitted* track: the guard "
+                   "of the set_tempo append tests the enumerate position, not the track number")
+    f = ctx.prog.func("partitura.io.exportmidi:save_performance_midi", rule)
+    st = [n for n in own_nodes(f.node) if isinstance(n, ast.Call) and norm(n.func).endswith("MetaMessage") and n.args
+          and isinstance(n.args[0], ast.Constant) and n.args[0].value == "set_tempo"]
+    ctx.require(len(st) == 1, rule, f.qname, "set_tempo message not found")
+    guard = loop = None
+    p = getattr(st[0], "_parent", None)
+    while p is not None and p is not f.node:
+        if isinstance(p, ast.If) and guard is None:
+            guard = p
+        if isinstance(p, ast.For) and loop is None:
+            loop = p
+        p = getattr(p, "_parent", None)
+    ok = False
+    why = "the set_tempo message is not inside the track loop under an `== 0` guard"
+    if loop is not None and guard is None:
+        ok, why = False, "set_tempo is emitted on every track"
+    if loop is not None and guard is not None:
+        t = guard.test
+        counter = None
+        if isinstance(loop.iter, ast.Call) and norm(loop.iter.func) == "enumerate" and isinstance(loop.target, ast.Tuple):
+            counter = norm(loop.target.elts[0])
+        if isinstance(t, ast.Compare) and len(t.ops) == 1 and isinstance(t.ops[0], ast.Eq) and isinstance(t.comparators[0], ast.Constant) and t.comparators[0].value == 0:
+            ok = counter is not None and norm(t.left) == counter
+            why = f"the guard `{norm(t)}` tests {'the track number' if counter is None or norm(t.left) != counter else 'the position'}"
+    ctx.check(ok, rule, "set_tempo on the first emitted track", func=f, node=st[0], construct="tempo-guard-not-positional",
+              msg=f"{why}: when no track is numbered 0 no set_tempo is written, the reader assumes 120 bpm and every time comes back scaled by "
+                  f"500000/mpq")
+
+
+def rule_from_instance_rounding(ctx):
+    rule = "F10-conv"
+    ctx.rule(rule, "pre-1.0 -> 1.0.0 conversion: an attribute that some pre-1.0 version declares as float (tick times with two decimals) "
+                   "is rounded before int() in every from_instance")
+    fo = world(ctx).folder
+    floats = set()
+    from ..core.constfold import SymRef
+    v0 = "partitura.io.matchlines_v0"
+    for name in ctx.prog.module(v0).defs:
+        v = fo.try_const(v0, name)
+        stack = [v]
+        while stack:
+            d = stack.pop()
+            if isinstance(d, dict):
+                for k, x in d.items():
+                    if isinstance(x, tuple) and len(x) == 3 and isinstance(x[2], SymRef) and x[2].qname == "float" and isinstance(k, str):
+                        floats.add(k)
+                    elif isinstance(x, dict):
+                        stack.append(x)
+    ctx.require(floats, rule, v0, "no float-typed fields found in the v0 tables")
+    ctx.extra["v0_float_fields"] = sorted(floats)
+    n = 0
+    for f in ctx.prog.functions_in("partitura.io.matchlines_v1"):
+        if f.name != "from_instance":
+            continue
+        ctx.touch(f)
+        inst = f.params[1] if len(f.params) > 1 else "instance"
+        for c in own_nodes(f.node):
+            if isinstance(c, ast.Call) and isinstance(c.func, ast.Name) and c.func.id == "int" and len(c.args) == 1:
+                a = c.args[0]
+                inner = a.args[0] if isinstance(a, ast.Call) and norm(a.func) in ("np.round", "round", "np.rint") and a.args else a
+                attrs = {x.attr for x in ast.walk(inner) if isinstance(x, ast.Attribute) and isinstance(x.value, ast.Name)}
+                hit = attrs & floats
+                if not hit:
+                    continue
+                n += 1
+                ctx.check(inner is not a, rule, f"{f.qname}: {norm(c)[:50]}", func=f, node=c, construct=f"truncated-conversion:{sorted(hit)[0]}",
+                          msg=f"`{norm(c)}` truncates `{sorted(hit)[0]}`, which pre-1.0 versions store as a float tick value (e.g. 39060.75): the "
+                              f"converted line is more than half a tick off — conversion must keep the times (round to the nearest tick)")
+    ctx.floor(rule, "int() conversions of float-typed fields in from_instance", n, 2)
+
+
+def rule_tick_provenance(ctx):
+    rule = "TICK-src"
+    ctx.rule(rule, "every tick written into a pedal or performed-note line by matchfile_from_alignment is the direct result of "
+                   "seconds_to_midi_ticks(<seconds>, mpq=mpq, ppq=ppq) with the header's clock (no other tick source)")
+    f = ctx.prog.func("partitura.io.exportmatch:matchfile_from_alignment", rule)
+    defs = local_defs(f)
+    n = 0
+    for c in own_nodes(f.node):
+        if not (isinstance(c, ast.Call) and norm(c.func) in ("MatchSustainPedal", "MatchSoftPedal", "MatchNote")):
+            continue
+        for k in c.keywords:
+            if k.arg not in ("time", "onset", "offset"):
+                continue
+            n += 1
+            v = resolve_alias(k.value, defs)
+            ok = isinstance(v, ast.Call) and norm(v.func) == "seconds_to_midi_ticks" and \
+                {kk.arg: norm(kk.value) for kk in v.keywords}.get("mpq") in f.all_params and {kk.arg: norm(kk.value) for kk in v.keywords}.get("ppq") in f.all_params
+            ctx.check(ok, rule, f"{norm(c.func)}({k.arg}=...)", func=f, node=c, construct=f"tick-not-from-converter:{norm(c.func)}.{k.arg}",
+                      msg=f"`{k.arg}={norm(k.value)}` resolves to `{norm(v)[:80]}`, not to seconds_to_midi_ticks(..., mpq=mpq, ppq=ppq): ticks taken from "
+                          f"elsewhere (e.g. the source file's own tick count) are in another clock than the one written into the header")
+    ctx.floor(rule, "tick arguments of line constructors", n, 4)
+
+
+def rule_map_scope(ctx):
+    rule = "MAP-scope"
+    ctx.rule(rule, "create_variant_part starts a new object map for every visited segment: the map's initialisation is inside the loop "
+                   "over the segments (references leaving a segment must become None, not resolve to an earlier visit's copy)")
+    f = ctx.prog.func("partitura.score:ScoreVariant.create_variant_part", rule)
+    seg_loops = [n for n in own_nodes(f.node) if isinstance(n, ast.For) and norm(n.iter).endswith(".segments")]
+    ctx.require(len(seg_loops) == 1, rule, f.qname, "loop over the segments not found")
+    lp = seg_loops[0]
+    maps = set()
+    for n in ast.walk(lp):
+        if isinstance(n, ast.Assign) and isinstance(n.targets[0], ast.Subscript) and isinstance(n.targets[0].value, ast.Name) \
+                and isinstance(n.value, ast.Name) and any(isinstance(a, ast.Assign) and norm(a.targets[0]) == n.value.id and isinstance(a.value, ast.Call)
+                                                          and norm(a.value.func) == "copy" for a in ast.walk(lp)):
+            maps.add(n.targets[0].value.id)
+    ctx.require(len(maps) == 1, rule, f.qname, "object map not identified")
+    m = next(iter(maps))
+    inits = [a for a in own_nodes(f.node) if isinstance(a, ast.Assign) and norm(a.targets[0]) == m and isinstance(a.value, (ast.Dict, ast.Call))]
+    inside = [a for a in inits if any(a is x for x in ast.walk(lp))]
+    ctx.check(len(inits) >= 1 and len(inside) == len(inits), rule, f"`{m}` initialised per segment", func=f, node=inits[0] if inits else None,
+              construct="object-map-hoisted",
+              msg=f"the object map `{m}` is created outside the loop over the segments: a tie/slur that leaves a segment then resolves to the copy made "
+                  f"during an *earlier* visit instead of None, linking notes of different visits")
+
+
+def rule_number_none_test(ctx):
+    rule = "NONE-test"
+    ctx.rule(rule, "measure_number_map: the fallback for unnumbered measures tests the number against None, not its truthiness "
+                   "(a pickup measure numbered 0 is a numbered measure)")
+    f = ctx.prog.func("partitura.score:Part.measure_number_map", rule)
+    comps = [n for n in own_nodes(f.node) if isinstance(n, ast.ListComp) and isinstance(n.elt, (ast.List, ast.Tuple)) and len(n.elt.elts) == 3]
+    ctx.require(len(comps) == 1, rule, f.qname, "measure table comprehension not found")
+    e = comps[0].elt.elts[2]
+    uses_number = any(isinstance(x, ast.Attribute) and x.attr == "number" for x in ast.walk(e))
+    none_cmp = any(isinstance(c, ast.Compare) and any(isinstance(k, ast.Constant) and k.value is None for k in c.comparators) for c in ast.walk(e))
+    truthy = any(isinstance(b, ast.BoolOp) and isinstance(b.op, ast.Or) for b in ast.walk(e)) or \
+        (isinstance(e, ast.IfExp) and isinstance(e.test, ast.Attribute))
+    ctx.check(uses_number and (none_cmp or not isinstance(e, (ast.IfExp, ast.BoolOp))) and not truthy, rule, f"number column `{norm(e)[:50]}`", func=f, node=e,
+              construct="number-fallback-on-truthiness",
+              msg=f"`{norm(e)[:80]}` replaces a measure number by the previous one whenever it is falsy: measure 0 (kern pickup, 'bar 0' convention) is a "
+                  f"valid number and must be reported as such")
+
+
+def rule_yield_unconditional(ctx):
+    rule = "FLAT-all"
+    ctx.rule(rule, "iter_parts yields every Part it meets: the yield under isinstance(el, Part) has no further condition, and the "
+                   "recursive results are yielded unconditionally")
+    f = ctx.prog.func("partitura.score:iter_parts", rule)
+    ys = [n for n in own_nodes(f.node) if isinstance(n, (ast.Yield, ast.YieldFrom))]
+    ctx.require(len(ys) >= 2, rule, f.qname, "yields not found")
+    for y in ys:
+        conds = _path_conditions(y, f.node)
+        extra = {c for c in conds if not c.startswith("isinstance(") and not c.startswith("not (isinstance(")}
+        ctx.check(not extra, rule, f"`{norm(y)[:30]}` unconditional", func=f, node=y, construct="conditional-yield",
+                  msg=f"`{norm(y)}` is only executed under {sorted(extra)}: some parts of the input are silently dropped before merging / scoring "
+                      f"(e.g. parts of separately loaded files that share an id)")
+
+
+def rule_identity_shortcut(ctx):
+    rule = "P1-only"
+    ctx.rule(rule, "_transpose_note_inplace skips only the perfect unison: the no-op guard is keyed on the interval class (quality and "
+                   "number), not on the number of semitones (INTERVAL_TO_SEMITONES is not injective: d2 also has 0 semitones)")
+    fo = world(ctx).folder
+    i2s = fo.const("partitura.utils.globals", "INTERVAL_TO_SEMITONES")
+    zero = sorted(k for k, v in i2s.items() if v == 0)
+    f = ctx.prog.func("partitura.utils.music:_transpose_note_inplace", rule)
+    skips = [n for n in own_nodes(f.node) if isinstance(n, ast.If) and n.body and all(isinstance(s, (ast.Pass, ast.Return)) for s in n.body)]
+    ctx.require(len(skips) == 1, rule, f.qname, "no-op guard not found")
+    t = skips[0].test
+    attrs = {x.attr for x in ast.walk(t) if isinstance(x, ast.Attribute)}
+    ok = {"quality", "number"} <= attrs and "semitones" not in attrs and any(isinstance(c, ast.Constant) and c.value == "P1" for c in ast.walk(t))
+    ctx.check(ok or len(zero) == 1, rule, f"no-op guard `{norm(t)[:50]}`", func=f, node=skips[0], construct="identity-by-semitones",
+              msg=f"the no-op guard `{norm(t)}` is not keyed on the interval class P1; intervals with 0 semitones are {zero}: a diminished second must still "
+                  f"move the note one staff step")
+
+
+def rule_groupby_sorted(ctx, modnames):
+    rule = "GROUPBY"
+    ctx.rule(rule, "itertools.groupby only merges *consecutive* equal keys: every use is on data sorted by the same key (sorted(..., key=k) "
+                   "or a preceding .sort(key=k)); grouping of notes by (onset, duration) must be global")
+    n = 0
+    for m in modnames:
+        for f in ctx.prog.functions_in(m):
+            for c in own_nodes(f.node):
+                if isinstance(c, ast.Call) and norm(c.func) in ("groupby", "itertools.groupby") and c.args:
+                    n += 1
+                    key = next((k.value for k in c.keywords if k.arg == "key"), c.args[1] if len(c.args) > 1 else None)
+                    src = c.args[0]
+                    ok = isinstance(src, ast.Call) and norm(src.func) == "sorted" and (
+                        (key is None and not src.keywords) or any(k.arg == "key" and key is not None and norm(k.value) == norm(key) for k in src.keywords))
+                    ctx.check(ok, rule, f"{f.qname}: {norm(c)[:50]}", func=f, node=c, construct=f"groupby-unsorted:{f.name}",
+                              msg=f"`{norm(c)[:80]}` groups consecutive rows only; its input is not sorted by the same key, so equal keys on non-adjacent "
+                                  f"rows end up in different groups (chord notes with identical onset and duration get different voices)")
+    ctx.ok(rule, f"{n} groupby call(s) in {len(modnames)} module(s)")
+
+
+def rule_comask(ctx):
+    rule = "F9a-mask"
+    ctx.rule(rule, "get_time_maps_from_alignment: the arrays sliced from the matched-index table are parallel; if one of them is "
+                   "filtered/re-indexed in place, every other one that is used afterwards is filtered by the same index")
+    f = ctx.prog.func("partitura.musicanalysis.performance_codec:get_time_maps_from_alignment", rule)
+    stmts = [s for s in own_statements(f.node.body)]
+    group = {}
+    for s in stmts:
+        if isinstance(s, ast.Assign) and isinstance(s.targets[0], ast.Name) and isinstance(s.value, ast.Subscript) and isinstance(s.value.value, ast.Subscript) \
+                and "[:, " in norm(s.value.value.slice) and s.targets[0].id not in group:
+            group[s.targets[0].id] = s.lineno
+    ctx.require(len(group) >= 3, rule, f.qname, f"parallel arrays not found: {sorted(group)}")
+    refilters = {}
+    for s in stmts:
+        if isinstance(s, ast.Assign) and isinstance(s.targets[0], ast.Name) and s.targets[0].id in group and s.lineno > group[s.targets[0].id] \
+                and isinstance(s.value, ast.Subscript) and norm(s.value.value) == s.targets[0].id:
+            refilters.setdefault(s.targets[0].id, []).append((s.lineno, norm(s.value.slice), s))
+    if not refilters:
+        ctx.ok(rule, f"{sorted(group)}: none is filtered in place")
+        return
+    for name, lst in refilters.items():
+        line, idx, node = lst[0]
+        for other in group:
+            if other == name:
+                continue
+            used_later = any(isinstance(x, ast.Name) and x.id == other and isinstance(x.ctx, ast.Load) and x.lineno > line for x in ast.walk(f.node))
+            same = any(i2 == idx for (_, i2, _) in refilters.get(other, []))
+            # the mask itself may be computed from `other`
+            in_mask = other in idx
+            ctx.check(not used_later or same or (in_mask and not any(isinstance(x, ast.Subscript) and norm(x.value) == other and x.lineno > line for x in ast.walk(f.node))),
+                      rule, f"{other} co-filtered with {name}", func=f, node=node, construct=f"parallel-array-out-of-step:{other}",
+                      msg=f"`{norm(node)}` filters `{name}` but `{other}` (sliced from the same matched-index table) is used afterwards unfiltered: indices "
+                          f"computed on `{name}` then pick the wrong elements of `{other}` — each score onset is paired with the wrong performed notes")
+
+
+def rule_per_iteration_staff(ctx):
+    rule = "ITER-local"
+    ctx.rule(rule, "MEI chords: the staff given to each note is computed per note (assigned on every path of the loop body); a name that "
+                   "lives outside the loop and is only conditionally overwritten inside would carry one note's @staff over to the next")
+    f = ctx.prog.func("partitura.io.importmei:MeiParser._handle_chord", rule)
+    loops = [n for n in own_nodes(f.node) if isinstance(n, ast.For)]
+    n = 0
+    for lp in loops:
+        for c in ast.walk(lp):
+            if isinstance(c, ast.Call) and norm(c.func) in ("score.Note", "score.GraceNote"):
+                kw = next((k.value for k in c.keywords if k.arg == "staff"), None)
+                if not isinstance(kw, ast.Name):
+                    continue
+                n += 1
+                name = kw.id
+                body_assigns = [a for a in ast.walk(lp) if isinstance(a, ast.Assign) and any(norm(t) == name for t in a.targets)]
+                # definitely assigned in the iteration: an unconditional assignment, or both branches of one if/else
+                definite = False
+                for a in body_assigns:
+                    p = getattr(a, "_parent", None)
+                    if p is lp:
+                        definite = True
+                    elif isinstance(p, ast.If) and getattr(p, "_parent", None) is lp and p.orelse:
+                        in_body = any(isinstance(x, ast.Assign) and any(norm(t) == name for t in x.targets) for x in p.body)
+                        in_else = any(isinstance(x, ast.Assign) and any(norm(t) == name for t in x.targets) for x in p.orelse)
+                        definite = definite or (in_body and in_else)
+                outer = name in f.all_params or any(isinstance(a, ast.Assign) and any(norm(t) == name for t in a.targets) and not any(a is x for x in ast.walk(lp))
+                                                    for a in own_nodes(f.node))
+                ctx.check(definite or not (outer and body_assigns), rule, f"staff={name} per note", func=f, node=c, construct="loop-carried-staff",
+                          msg=f"`staff={name}`: `{name}` comes from outside the loop and is overwritten only when a note has its own @staff, so that value "
+                              f"leaks to every later note of the chord (they load on the wrong staff)")
+    ctx.floor(rule, "note constructors in the chord loop", n, 1)
+
+
+def _block_paths(block, classify, prefix=None):
+    """All structured paths through a statement block without inner loops: lists of events, each path tagged with
+    how it ends ('fall', 'continue', 'break', 'return'). `classify(stmt)` returns the events of a simple statement."""
+    paths = [(list(prefix or []), "fall")]
+    for s in block:
+        nxt = []
+        for ev, end in paths:
+            if end != "fall":
+                nxt.append((ev, end))
+                continue
+            if isinstance(s, ast.If):
+                for sub in (s.body, s.orelse):
+                    nxt.extend(_block_paths(sub, classify, ev + classify(s.test)))
+            elif isinstance(s, ast.Continue):
+                nxt.append((ev, "continue"))
+            elif isinstance(s, ast.Break):
+                nxt.append((ev, "break"))
+            elif isinstance(s, (ast.Return, ast.Raise)):
+                nxt.append((ev, "return"))
+            elif isinstance(s, (ast.For, ast.While, ast.Try, ast.With)):
+                nxt.append((ev + [("opaque", s)], end))
+            else:
+                nxt.append((ev + classify(s), end))
+        paths = nxt
+    return paths
+
+
+def rule_counter_consecutive(ctx):
+    rule = "COUNTER"
+    ctx.rule(rule, "add_measures numbers consecutively: along every path through one round of the measure loop the numbers handed out "
+                   "are counter, counter+1, ... without gap or repeat, and the counter ends the round at the next free number "
+                   "(offset analysis of the one counter variable over all structured paths)")
+    f = ctx.prog.func("partitura.score:add_measures", rule)
+    ctor = [c for c in own_nodes(f.node) if isinstance(c, ast.Call) and norm(c.func) == "Measure" and any(k.arg == "number" for k in c.keywords)]
+    ctx.require(len(ctor) == 1, rule, f.qname, "Measure(number=...) not found")
+    numexpr = next(k.value for k in ctor[0].keywords if k.arg == "number")
+    ctx.require(isinstance(numexpr, ast.Name), rule, f.qname, "measure number is not a plain counter variable")
+    cnt = numexpr.id
+    loop = None
+    p = getattr(ctor[0], "_parent", None)
+    while p is not None and p is not f.node:
+        if isinstance(p, (ast.While, ast.For)) and loop is None:
+            loop = p
+        p = getattr(p, "_parent", None)
+    ctx.require(loop is not None, rule, f.qname, "measure loop not found")
+
+    def offset(e):
+        if isinstance(e, ast.Name) and e.id == cnt:
+            return 0
+        if isinstance(e, ast.BinOp) and isinstance(e.op, ast.Add):
+            for a, b in ((e.left, e.right), (e.right, e.left)):
+                if isinstance(a, ast.Name) and a.id == cnt and isinstance(b, ast.Constant) and isinstance(b.value, int):
+                    return b.value
+        return None
+
+    def classify(s):
+        ev = []
+        if isinstance(s, ast.AugAssign) and norm(s.target) == cnt:
+            if isinstance(s.op, ast.Add) and isinstance(s.value, ast.Constant) and isinstance(s.value.value, int):
+                return [("inc", s.value.value, s)]
+            return [("opaque", s)]
+        if isinstance(s, ast.Assign) and any(norm(t) == cnt for t in s.targets):
+            o = offset(s.value)
+            return [("inc", o, s)] if o is not None else [("opaque", s)]
+        for n in ast.walk(s):
+            if isinstance(n, ast.Call):
+                for k in n.keywords:
+                    if k.arg == "number":
+                        ev.append(("use", offset(k.value), n))
+        if isinstance(s, ast.Assign) and any(isinstance(t, ast.Attribute) and t.attr == "number" for t in s.targets):
+            ev.append(("use", offset(s.value), s))
+        return ev
+    paths = _block_paths(loop.body, classify)
+    ctx.require(len(paths) >= 3, rule, f.qname, f"only {len(paths)} path(s) through the measure loop")
+    n = 0
+    for ev, end in paths:
+        if end not in ("fall", "continue"):
+            continue
+        n += 1
+        cur, nxt_free, bad = 0, 0, None
+        for e in ev:
+            if e[0] == "opaque":
+                if any(isinstance(x, ast.Name) and x.id == cnt and isinstance(x.ctx, ast.Store) for x in ast.walk(e[1])):
+                    bad = f"`{norm(e[1])[:50]}` changes the counter in a way the offset analysis cannot follow"
+            elif e[0] == "inc":
+                cur += e[1]
+            elif e[0] == "use":
+                if e[1] is None:
+                    bad = f"a measure number is not `{cnt}` + constant"
+                elif cur + e[1] != nxt_free:
+                    bad = f"the {nxt_free + 1}. number handed out in the round is {cnt}+{cur + e[1]} (expected {cnt}+{nxt_free})"
+                else:
+                    nxt_free += 1
+            if bad:
+                break
+        if not bad and cur != nxt_free:
+            bad = f"{nxt_free} number(s) handed out but the counter advances by {cur}"
+        desc = "/".join(("use+%d" % (e[1],) if e[0] == "use" and e[1] is not None else e[0] + (str(e[1]) if e[0] == "inc" else "")) for e in ev if e[0] in ("use", "inc"))
+        ctx.check(not bad, rule, f"path {n} ({desc or 'no numbering'}; ends with {end})", func=f, node=loop, construct=f"numbering-gap:{nxt_free}-numbers-counter+{cur}",
+                  msg=f"along the path [{desc}] through the measure loop {bad}: measure numbers are no longer consecutive")
+
+
+def rule_every_round_passes(ctx, qname, loop_role, must_role, label, why):
+    """must-pass-through inside a loop: every path from the loop head back to the loop head goes through `must`."""
+    rule = "ROUND-all"
+    ctx.rule(rule, "must-pass-through per loop round: every path from the loop head round to the loop head passes the named step "
+                   "(no early `continue` before it)")
+    f = ctx.prog.func(qname, rule)
+    loop = loop_role(f)
+    must = must_role(f, loop)
+    ctx.require(loop is not None and must is not None, rule, qname, f"{label}: loop / step not found")
+    cfg = world(ctx).inf.cfg(f)
+    head = cfg.node_of(loop)
+    mnode = cfg.node_of(must)
+    ctx.require(head is not None and mnode is not None, rule, qname, f"{label}: CFG nodes not found")
+    # only body successors of the head
+    class _S:  # a start whose successors are the loop-body edge(s) only
+        pass
+    st = _S()
+    st.succ = [(m, l) for m, l in head.succ if l == "T"]
+    ctx.require(st.succ, rule, qname, f"{label}: loop body edge not found")
+    bad = cfg.paths_avoiding(st, {mnode}, {head})
+    ctx.check(not bad, rule, label, func=f, node=loop, construct=f"round-skips:{label}", msg=why)
